@@ -132,6 +132,7 @@ class CountingFile:
         self._f = open(path, 'rb')
         self._pos = 0
         self.log = []
+        self.all = []                   # never cleared
         self.faults = faults or {}      # read ordinal -> 'exc' | 'short' | 'empty'
         self.n = 0
         self.limit = limit              # pretend the file ends here
@@ -145,6 +146,7 @@ class CountingFile:
         k = self.n
         self.n += 1
         self.log.append((self._pos, length))
+        self.all.append((self._pos, length))
         kind = self.faults.get(k)
         if kind == 'exc':
             raise OSError(5, 'injected I/O error')
@@ -196,6 +198,11 @@ class SpecFile:
         else:
             self.shape_pad = (padto(self.n_il, self.bs[0]), padto(self.n_xl, self.bs[1]), padto(self.n_s, self.bs[2]))
             self.ub = int(64 * self.rate) // 8
+        if self.ndb == 0 and self.version == (0, 0, 0, 0):
+            # files older than the published specification (v0.0.x) do not record the sizes: derive them
+            self.ndb = int(self.shape_pad[0] * self.shape_pad[1] * self.shape_pad[2] * self.rate) // 8 // 4096
+            self.legacy_sizes = True
+        self.data = b[4096 * self.nhb: 4096 * self.nhb + 4096 * self.ndb]
         self.stride = padto(self.hel, 512) if self.after_021 else self.hel
         self._units = None
 
